@@ -123,3 +123,10 @@ Definition ow_heap : heap := heap_of ow_F ow_St [] 1000.
 Definition owc_dr : rdata := mkRD (Z.lor c_cJSON_Number c_cJSON_StringIsConst) None 1 (dbl_of_int 1) (Some 102%positive) None.
 Definition owc_F : forest := [T 1 owc_dr []; ow_num 10 5 None].
 Definition owc_heap : heap := heap_of owc_F ow_St [102%positive] 1000.
+
+(** a REPLACEMENT whose key is a constant: what cJSON_Duplicate returns for a patch member added with
+    cJSON_AddItemToObjectCS(patch, "value", ...) — it keeps the caller's block 110 and the flag
+    cJSON_StringIsConst (cJSON_Duplicate copies the key only when the flag is clear) *)
+Definition owk_dx : rdata := mkRD (Z.lor c_cJSON_Number c_cJSON_StringIsConst) None 5 (dbl_of_int 5) (Some 110%positive) None.
+Definition owk_F : forest := [ow_num 1 1 None; T 10 owk_dx []].
+Definition owk_heap : heap := heap_of owk_F ow_St [110%positive] 1000.
